@@ -149,13 +149,11 @@ Proof. reflexivity. Qed.
 Lemma triple_eq {A B C} : forall (a a' : A) (b b' : B) (c c' : C), a = a' -> b = b' -> c = c' -> (a, b, c) = (a', b', c').
 Proof. intros; subst; reflexivity. Qed.
 
-(* [meta_enc_b s c] (RoundTripSim.v): an encoding is in force at a write_meta.  With none the fixed writer hands
-   the JSON on as bytes, while [call_prepared] (C01) and DomSpec.call_body (C05) describe the text path only. *)
 Lemma view_of_record : forall s s' cur c line,
-  lvl_ok s cur -> call_good c -> meta_enc_b s c = true -> do_call c s = (s', Ok tt) ->
+  lvl_ok s cur -> call_good c -> do_call c s = (s', Ok tt) ->
   rec_view (expected_record_of s line c) = expected_view s cur c.
 Proof.
-  intros s s' cur c line [Hreach Hlvl] Hg Hme Hcall.
+  intros s s' cur c line [Hreach Hlvl] Hg Hcall.
   unfold rec_view, expected_record_of, expected_record. cbn [r_id r_opts r_payload].
   destruct c as [e|e|text enc ind le mt|md enc fmt|content dt enc le]; cbn [call_good] in Hg.
   - cbn [expected_view call_opts call_payload WF.target]. apply triple_eq; [reflexivity| |reflexivity].
@@ -180,14 +178,19 @@ Proof.
     + destruct (prepared_le_out _ _ _ _ _ _ _ _ Hprep) as (y & _ & Ey & _ & Hx & _). rewrite Hlo in Ey, Hx. exact Hx.
     + eapply choice_plain; [exact WC.choice_sub_mimetypes | exact Hmt].
   - destruct Hg as (Henc & kv & ->).
-    destruct (meta_call_inv _ _ _ _ _ (WF.Inv_stack _ (WF.reachable_inv _ Hreach)) Hme Hcall)
-      as (j & d & Ej & _ & Hfmt & Hdump & Hncs). injection Ej as <-.
+    (* the JSON goes on as text when an encoding is in force, as bytes otherwise: C01's [call_prepared] and C05's
+       [call_body] follow the writer *)
+    pose proof (WF.Inv_stack _ (WF.reachable_inv _ Hreach)) as Hne.
+    destruct (meta_call_inv_gen _ _ _ _ _ Hcall) as (j & d & he & Ej & _ & Hfmt & Hdump & Hhe & Hncs). injection Ej as <-.
+    pose proof (has_enc_meta_enc s (WDict (JObj kv)) enc fmt he Hne Hhe) as Hme. cbn [meta_enc_b] in Hme.
     destruct (WC.C02_length_exact _ _ _ _ _ _ _ _ _ _ Hncs) as (body & lo & h & Hprep & _).
-    assert (Hmc : meta_content s enc d = CText (ascii_text d)).
-    { unfold meta_content. cbn [meta_enc_b] in Hme. rewrite Hme. reflexivity. }
+    assert (Hmc : meta_content s enc d = (if he then CText (ascii_text d) else CBytes d)).
+    { unfold meta_content. rewrite Hme. reflexivity. }
+    assert (Hmb : (if wv_truthy enc then true else wv_truthy (hd WNone (w_stack s))) = he).
+    { rewrite <- Hme. unfold Encodings.w_content_encoding. destruct (wv_truthy enc) eqn:E; cbn [negb andb]; [exact (eq_sym E)|reflexivity]. }
     cbn [expected_view call_prepared call_opts call_payload WF.target]. rewrite Hdump, Hmc, Hprep. cbn [fst snd].
     assert (Hbl : body_length s (WriteMeta (WDict (JObj kv)) enc fmt) = content_length body).
-    { unfold body_length, call_body. rewrite Hdump. cbn [bind]. rewrite Hprep. reflexivity. }
+    { unfold body_length, call_body. rewrite Hdump. cbn [bind]. cbv zeta. rewrite Hmb, Hprep. reflexivity. }
     rewrite Hbl, Nat.add_sub, Hlvl. apply triple_eq; [reflexivity| |reflexivity].
     assert (Hfp : plain (meta_fmt fmt)).
     { apply WC.in_strset_true in Hfmt. destruct Hfmt as (x & Hx & ->).
@@ -240,15 +243,13 @@ Proof.
 Qed.
 
 Lemma views_of_records : forall cs s cur line, lvl_ok s cur -> Forall call_good cs -> accepted s cs ->
-  metas_encoded s cs ->
   map rec_view (expected_records s line cs) = expected_views s cur cs.
 Proof.
-  induction cs as [|c t IH]; intros s cur line Hl Hg Ha Hme; [reflexivity|].
+  induction cs as [|c t IH]; intros s cur line Hl Hg Ha; [reflexivity|].
   destruct (accepted_cons _ _ _ Ha) as (s' & Hc & Ha'). inversion Hg as [|? ? Hgc Hgt]; subst.
-  cbn [metas_encoded] in Hme. destruct Hme as [Hmc Hmt]. rewrite Hc in Hmt. cbn [fst] in Hmt.
   cbn [expected_records expected_views map]. rewrite Hc. cbn [fst].
-  rewrite (view_of_record s s' cur c line Hl Hgc Hmc Hc). f_equal.
-  apply IH; [eapply lvl_ok_step; eauto | exact Hgt | exact Ha' | exact Hmt].
+  rewrite (view_of_record s s' cur c line Hl Hgc Hc). f_equal.
+  apply IH; [eapply lvl_ok_step; eauto | exact Hgt | exact Ha'].
 Qed.
 
 Lemma main_view_of_record : forall enc0 ver s0, writer_init enc0 ver = (s0, Ok tt) -> enc_ok enc0 ->
@@ -265,26 +266,26 @@ Proof.
 Qed.
 
 Lemma views_of_records_main : forall enc0 ver s0 cs,
-  writer_init enc0 ver = (s0, Ok tt) -> enc_ok enc0 -> Forall call_good cs -> accepted s0 cs -> metas_encoded s0 cs ->
+  writer_init enc0 ver = (s0, Ok tt) -> enc_ok enc0 -> Forall call_good cs -> accepted s0 cs ->
   map rec_view (main_record enc0 ver :: expected_records s0 1 cs) = main_view enc0 ver :: expected_views s0 AtMain cs.
 Proof.
-  intros enc0 ver s0 cs Hi He Hg Ha Hme. cbn [map]. rewrite (main_view_of_record _ _ _ Hi He). f_equal.
-  apply views_of_records; [eapply lvl_ok_init; exact Hi | exact Hg | exact Ha | exact Hme].
+  intros enc0 ver s0 cs Hi He Hg Ha. cbn [map]. rewrite (main_view_of_record _ _ _ Hi He). f_equal.
+  apply views_of_records; [eapply lvl_ok_init; exact Hi | exact Hg | exact Ha].
 Qed.
 
 (* the hypothesis of DomSpecFacts.C05_dom_round_trip, from C01 *)
 Theorem reader_returns_expected_of_C01 : forall orc t b cs s0,
   writer_init (tree_encoding t) (tree_version t) = (s0, Ok tt) -> tree_calls t = Ok cs ->
   enc_ok (tree_encoding t) -> Forall call_good cs -> accepted s0 cs -> b = w_out (snd (run_calls s0 cs)) ->
-  metas_encoded s0 cs -> guesses_ok s0 cs -> oracle_ok orc cs -> (Z.of_nat (length b) <= sys_maxsize)%Z ->
+  metas_oracle_ok orc s0 cs -> guesses_ok s0 cs -> oracle_ok orc cs -> (Z.of_nat (length b) <= sys_maxsize)%Z ->
   reader_returns_expected orc t b.
 Proof.
   intros orc t b cs s0 Hi Hc He Hg Ha -> Hme Hgs Ho Hsz s0' cs' Hi' Hc'.
   rewrite Hi in Hi'. injection Hi' as <-. rewrite Hc in Hc'. injection Hc' as <-.
   exists (main_record (tree_encoding t) (tree_version t) :: expected_records s0 1 cs). split.
-  - apply C01_round_trip; try assumption; [apply metas_oracle_of_encoded; exact Hme|]. unfold default_chunk. lia.
+  - apply C01_round_trip; try assumption. unfold default_chunk. lia.
   - cbn [map]. rewrite (main_view_of_record _ _ _ Hi He). f_equal.
-    apply views_of_records; [eapply lvl_ok_init; exact Hi | exact Hg | exact Ha | exact Hme].
+    apply views_of_records; [eapply lvl_ok_init; exact Hi | exact Hg | exact Ha].
 Qed.
 
 (* ================================================================================================ *)
@@ -691,16 +692,21 @@ Definition tree_oracle_ok (orc : oracle) (t : dtree) : Prop :=
 Definition tree_guesses_ok (t : dtree) : Prop :=
   forall s0 cs, writer_init (tree_encoding t) (tree_version t) = (s0, Ok tt) -> tree_calls t = Ok cs -> guesses_ok s0 cs.
 
-(* at every metadata section the tree writes an encoding is in force (C01's [metas_encoded], RoundTripSim.v): with the
-   fixed write_meta a tree without any encoding (the DOM default: encoding None) now serialises its metadata as
-   bytes, which the reader hands to json.loads as bytes; [tree_oracle_ok] (the JSON text) and DomSpec.expected_view
-   (the text path) do not describe that.  It holds whenever the tree's main section has an encoding
-   ([tree_metas_encoded_main]). *)
+(* C01's [metas_oracle_ok] for the calls of the tree: with the fixed write_meta a tree without any encoding (the DOM
+   default: encoding None) now serialises its metadata as ASCII bytes, which the reader hands to json.loads as
+   bytes; at those sections the oracle must answer for the bytes.  Nothing is required where an encoding is in force;
+   in particular nothing at all when the tree's main section has an encoding ([tree_metas_oracle_main]). *)
+Definition tree_metas_oracle_ok (orc : oracle) (t : dtree) : Prop :=
+  forall s0 cs, writer_init (tree_encoding t) (tree_version t) = (s0, Ok tt) -> tree_calls t = Ok cs -> metas_oracle_ok orc s0 cs.
 Definition tree_metas_encoded (t : dtree) : Prop :=
   forall s0 cs, writer_init (tree_encoding t) (tree_version t) = (s0, Ok tt) -> tree_calls t = Ok cs -> metas_encoded s0 cs.
 
 Lemma tree_metas_encoded_main : forall t, wv_truthy (tree_encoding t) = true -> tree_metas_encoded t.
 Proof. intros t H s0 cs Hi _. eapply metas_encoded_init; eauto. Qed.
+Lemma tree_metas_oracle_of_encoded : forall orc t, tree_metas_encoded t -> tree_metas_oracle_ok orc t.
+Proof. intros orc t H s0 cs Hi Hc. apply metas_oracle_of_encoded. eapply H; eauto. Qed.
+Lemma tree_metas_oracle_main : forall orc t, wv_truthy (tree_encoding t) = true -> tree_metas_oracle_ok orc t.
+Proof. intros orc t H. apply tree_metas_oracle_of_encoded, tree_metas_encoded_main, H. Qed.
 
 (* dom_write, unpacked for the C01 side *)
 Lemma dom_write_accepted : forall t b, dom_write t = Ok b ->
@@ -713,7 +719,7 @@ Qed.
 
 Theorem reader_returns_expected_tree : forall orc t b,
   tree_encs_ok t = true -> tree_indents_ok t = true -> dom_write t = Ok b ->
-  tree_oracle_ok orc t -> tree_metas_encoded t -> tree_guesses_ok t -> (Z.of_nat (length b) <= sys_maxsize)%Z ->
+  tree_oracle_ok orc t -> tree_metas_oracle_ok orc t -> tree_guesses_ok t -> (Z.of_nat (length b) <= sys_maxsize)%Z ->
   reader_returns_expected orc t b.
 Proof.
   intros orc t b He Hi Hw Ho Hme Hg Hsz.
@@ -726,7 +732,7 @@ Qed.
 Theorem C05_full : forall orc t b,
   typed_tree t = true -> tree_encs_ok t = true -> tree_indents_ok t = true ->
   dom_write t = Ok b ->
-  tree_oracle_ok orc t -> tree_metas_encoded t -> tree_guesses_ok t ->
+  tree_oracle_ok orc t -> tree_metas_oracle_ok orc t -> tree_guesses_ok t ->
   (Z.of_nat (length b) <= sys_maxsize)%Z ->
   dom_read orc b = Ok (normalise t).
 Proof.
@@ -778,7 +784,7 @@ Qed.
 Theorem C05_full_aligned : forall orc t b,
   typed_tree t = true -> tree_encs_aligned t = true -> tree_indents_ok t = true ->
   dom_write t = Ok b ->
-  tree_oracle_ok orc t -> tree_metas_encoded t ->
+  tree_oracle_ok orc t -> tree_metas_oracle_ok orc t ->
   (Z.of_nat (length b) <= sys_maxsize)%Z ->
   dom_read orc b = Ok (normalise t).
 Proof.
@@ -884,7 +890,7 @@ Qed.
 Theorem C06_full : forall orc t b,
   typed_tree t = true -> tree_encs_ok t = true -> tree_indents_ok t = true ->
   dom_write t = Ok b ->
-  tree_oracle_ok orc t -> tree_metas_encoded t -> tree_guesses_ok t ->
+  tree_oracle_ok orc t -> tree_metas_oracle_ok orc t -> tree_guesses_ok t ->
   (Z.of_nat (length b) <= sys_maxsize)%Z ->
   exists t', dom_read orc b = Ok t' /\ t' = normalise t /\
              dom_write t' = Ok b /\ normalise t' = t' /\
@@ -900,7 +906,7 @@ Qed.
 Theorem C06_full_aligned : forall orc t b,
   typed_tree t = true -> tree_encs_aligned t = true -> tree_indents_ok t = true ->
   dom_write t = Ok b ->
-  tree_oracle_ok orc t -> tree_metas_encoded t ->
+  tree_oracle_ok orc t -> tree_metas_oracle_ok orc t ->
   (Z.of_nat (length b) <= sys_maxsize)%Z ->
   exists t', dom_read orc b = Ok t' /\ t' = normalise t /\
              dom_write t' = Ok b /\ normalise t' = t' /\
@@ -927,8 +933,8 @@ Example ex_indents : tree_indents_ok ex_tree = true.
 Proof. vm_compute. reflexivity. Qed.
 Example ex_oracle : tree_oracle_ok ex_orc ex_tree.
 Proof. oracle_tac. Qed.
-Example ex_metas : tree_metas_encoded ex_tree.
-Proof. apply tree_metas_encoded_main. vm_compute. reflexivity. Qed.
+Example ex_metas : tree_metas_oracle_ok ex_orc ex_tree.
+Proof. apply tree_metas_oracle_main. vm_compute. reflexivity. Qed.
 Example ex_size : (Z.of_nat (length ex_bytes) <= sys_maxsize)%Z.
 Proof. vm_compute. discriminate. Qed.
 
@@ -943,8 +949,8 @@ Example ex2_indents : tree_indents_ok ex_tree2 = true.
 Proof. vm_compute. reflexivity. Qed.
 Example ex2_oracle : tree_oracle_ok ex_orc2 ex_tree2.
 Proof. oracle_tac. Qed.
-Example ex2_metas : tree_metas_encoded ex_tree2.
-Proof. apply tree_metas_encoded_main. vm_compute. reflexivity. Qed.
+Example ex2_metas : tree_metas_oracle_ok ex_orc2 ex_tree2.
+Proof. apply tree_metas_oracle_main. vm_compute. reflexivity. Qed.
 Example ex2_guesses : tree_guesses_ok ex_tree2.
 Proof.
   intros s0 cs Hi Hc. vm_compute in Hi. injection Hi as <-. vm_compute in Hc. injection Hc as <-.
@@ -964,3 +970,41 @@ Proof.
   exact (C06_full ex_orc2 ex_tree2 ex_bytes2 ex2_typed ex2_encs ex2_indents (proj1 ex2_write) ex2_oracle ex2_metas ex2_guesses ex2_size).
 Qed.
 
+
+(* a tree WITHOUT any encoding (the object model's default) that has metadata: before the fix of write_meta it did
+   not serialise (TypeError); now the metadata goes out as ASCII bytes under a header without encoding, the reader
+   asks json.loads about bytes, and with an oracle that answers for the bytes every hypothesis of C05_full / C06_full
+   holds *)
+Definition ex_tree3 : dtree :=
+  {| d_opts := [(B "version", WStr (ascii_text (B "1.0")))];
+     d_pre := new_psec;
+     d_meta := {| m_opts := [(B "format", WStr (ascii_text (B "json")))]; m_content := [(ascii_text (B "k"), JInt 1)] |};
+     d_changes := [] |}.
+Definition ex_bytes3 : bytes :=
+  B "#diffx: version=1.0" ++ [x0a] ++ B "#.meta: format=json, length=15" ++ [x0a] ++
+  B "{" ++ [x0a] ++ B "    ""k"": 1" ++ [x0a] ++ B "}" ++ [x0a].
+Definition ex_orc3 : oracle :=
+  [(B "s{" ++ [x0a] ++ B "    ""k"": 1" ++ [x0a] ++ B "}" ++ [x0a], LoadsOk (JObj [(ascii_text (B "k"), JInt 1)]));
+   (B "b{" ++ [x0a] ++ B "    ""k"": 1" ++ [x0a] ++ B "}" ++ [x0a], LoadsOk (JObj [(ascii_text (B "k"), JInt 1)]))].
+
+Example ex3_hypotheses :
+  typed_tree ex_tree3 = true /\ tree_encs_ok ex_tree3 = true /\ tree_indents_ok ex_tree3 = true /\
+  dom_write ex_tree3 = Ok ex_bytes3 /\ tree_oracle_ok ex_orc3 ex_tree3 /\ ~ tree_metas_encoded ex_tree3 /\
+  tree_metas_oracle_ok ex_orc3 ex_tree3 /\ tree_guesses_ok ex_tree3 /\ (Z.of_nat (length ex_bytes3) <= sys_maxsize)%Z.
+Proof.
+  split; [vm_compute; reflexivity|]. split; [vm_compute; reflexivity|]. split; [vm_compute; reflexivity|].
+  split; [vm_compute; reflexivity|]. split; [oracle_tac|]. split; [|split; [|split]].
+  - intros H. specialize (H _ _ eq_refl eq_refl). destruct H as [H _]. vm_compute in H. discriminate H.
+  - intros s0 cs Hi Hc. vm_compute in Hi. injection Hi as <-. vm_compute in Hc. injection Hc as <-.
+    split; [|exact I]. right. intros d Hd. vm_compute in Hd. injection Hd as <-. vm_compute. reflexivity.
+  - intros s0 cs Hi Hc. vm_compute in Hi. injection Hi as <-. vm_compute in Hc. injection Hc as <-.
+    vm_compute. repeat split.
+  - vm_compute. discriminate.
+Qed.
+
+Example ex3_C06_full : exists t', dom_read ex_orc3 ex_bytes3 = Ok t' /\ t' = normalise ex_tree3 /\
+  dom_write t' = Ok ex_bytes3 /\ normalise t' = t' /\ (forall b', dom_write t' = Ok b' -> dom_read ex_orc3 b' = Ok t').
+Proof.
+  destruct ex3_hypotheses as (H1 & H2 & H3 & H4 & H5 & _ & H6 & H7 & H8).
+  exact (C06_full ex_orc3 ex_tree3 ex_bytes3 H1 H2 H3 H4 H5 H6 H7 H8).
+Qed.
